@@ -27,7 +27,7 @@ Print Assumptions C04_run_covered.
    worker completions, exits and kills in between, the number of registered worker processes never exceeds
    max_workers — for the start policy read from _start_processes. *)
 Require Import LT.Model.Exec LT.Proofs.ExecProofs.
-Theorem C04_worker_limit : forall ops w e', In e' (states start_policy_src (init_ex w) ops) ->
+Theorem C04_worker_limit : forall ops w e', In e' (states start_policy_src wait_policy_src (init_ex w) ops) ->
   List.length (running e') <= maxw e'.
-Proof. exact (fun ops w e' H => worker_limit start_policy_src eq_refl ops (init_ex w) (init_within w) e' H). Qed.
+Proof. exact (fun ops w e' H => worker_limit start_policy_src eq_refl wait_policy_src ops (init_ex w) (init_within w) e' H). Qed.
 Print Assumptions C04_worker_limit.
